@@ -339,14 +339,36 @@ def run(argv, stdin=None, cwd=None, env=None, timeout=20, as_limit=None, fsize=N
             resource.setrlimit(resource.RLIMIT_AS, (as_limit, as_limit))
     o = Outcome()
     t0 = time.time()
+    # what the program writes is kept in unlinked temporary files, not in memory, and is limited (RLIMIT_FSIZE, 192 MiB unless the
+    # caller sets its own): a program that does not stop writing is then ended by SIGXFSZ and reported as such, instead of
+    # taking the checker down with it
+    import tempfile
+    cap_out = tempfile.TemporaryFile() if stdout is None else None
+    cap_err = tempfile.TemporaryFile()
+    LIMIT = 192 * 1024 * 1024
+
+    def pre2():
+        pre()
+        if fsize is None:
+            resource.setrlimit(resource.RLIMIT_FSIZE, (LIMIT, LIMIT))
+
+    def back(f):
+        if f is None:
+            return b""
+        f.seek(0)
+        return f.read(LIMIT + 1)
     try:
         p = subprocess.run(argv, input=stdin if isinstance(stdin, (bytes, type(None))) else None,
                            stdin=None if isinstance(stdin, (bytes, type(None))) else stdin,
-                           stdout=stdout if stdout is not None else subprocess.PIPE, stderr=subprocess.PIPE,
-                           cwd=cwd, env=e, timeout=timeout, preexec_fn=pre)
-        o.rc, o.out, o.err, o.timed_out = p.returncode, p.stdout or b"", p.stderr or b"", False
+                           stdout=stdout if stdout is not None else cap_out, stderr=cap_err,
+                           cwd=cwd, env=e, timeout=timeout, preexec_fn=pre2)
+        o.rc, o.out, o.err, o.timed_out = p.returncode, back(cap_out), back(cap_err), False
     except subprocess.TimeoutExpired as ex:
-        o.rc, o.out, o.err, o.timed_out = None, ex.stdout or b"", ex.stderr or b"", True
+        o.rc, o.out, o.err, o.timed_out = None, back(cap_out), back(cap_err), True
+    finally:
+        for f in (cap_out, cap_err):
+            if f is not None:
+                f.close()
         if _retry and stdout is None and not hasattr(stdin, "read"):
             return run(argv, stdin=stdin, cwd=cwd, env=env, timeout=4 * timeout, as_limit=as_limit, fsize=fsize, stdout=stdout, _retry=False)
     o.wall = time.time() - t0
